@@ -6,7 +6,8 @@
    intervals.  `sk_wire` is the sequence of bytes the socket accepted, in order. *)
 From Coq Require Import ZArith List Bool Lia Arith.
 From EN Require Import Conc.FlowControl.
-From EN Require Import Lib.Bytes IO.Retry IO.SendAll IO.SendMsg IO.TlsWrite IO.ClientLocks IO.AsyncAdapter Proofs.C04_adjust Proofs.C04_send Proofs.C11_locks Proofs.C04_async.
+From EN Require Import Lib.Sx.
+From EN Require Import Lib.Bytes IO.Retry IO.SendAll IO.SendMsg IO.TlsWrite IO.ClientLocks IO.AsyncAdapter Proofs.C04_adjust Proofs.C04_send Proofs.C11_locks Proofs.C04_async IO.Payload Proofs.C04_payload.
 Import ListNotations.
 
 (* adjust_leftover_buffer(buffers, n): afterwards the deque represents the unsent suffix, and a deque of non-empty
@@ -115,6 +116,18 @@ Theorem tls_write_terminates :
 Proof. exact tls_write_loop_terminates. Qed.
 Print Assumptions tls_write_terminates.
 
+(* Which readiness event a would-block waits for.  A plain socket's send()/sendmsg() only reports "would block on
+   write" (BlockingIOError / InterruptedError); then EVERY selector wait of send_all / send_all_from_iterable, on every
+   path, registers WRITABILITY -- so a peer that reads (and never writes) always wakes the sender up.  (For the SSL
+   object the event follows the SSL answer: Props/C11.v ssl_wait_mapping.) *)
+Theorem send_waits_for_writability :
+  forall (drop_empty has_sendmsg : bool) (iov : Z) (F fuel : nat) (ri : tmo) (chunks : list bytes) (T : tmo)
+         (s : sock) (sels : list selans),
+    Forall (fun a => match a with SBlock w _ => w = true | _ => True end) (sk_script s) ->
+    Forall (fun w => w_write w = true) (sr_waits (send_iter drop_empty has_sendmsg iov F fuel ri chunks T s sels)).
+Proof. exact send_iter_write_waits. Qed.
+Print Assumptions send_waits_for_writability.
+
 (* Client level (TCPNetworkClient / UDPNetworkClient.send_packet behind the send lock, IO/ClientLocks.v): whatever
    the interleaving of calls, grants, give-ups and failing bodies, once every call has ended both locks are free --
    so a later send_packet never burns its budget on a lock nobody holds -- and a send never waits on the receive lock. *)
@@ -132,6 +145,16 @@ Theorem send_packet_never_waits_on_recv_lock :
                /\ lookup k (cs s') = Some (mk_call k MSend PHold) /\ o_recv s' = o_recv s.
 Proof. exact send_ignores_recv_lock. Qed.
 Print Assumptions send_packet_never_waits_on_recv_lock.
+
+(* The shortcut Run/C04.v takes for very large payloads on the real async TLS transport (no scripted fault): the
+   backlog loop returns, and the chunk-wise digest is the digest of what the model puts on the wire. *)
+Theorem tls_large_payload_fast_path :
+  forall (fuel : nat) (chunks : list bytes),
+    (length chunks <= fuel)%nat ->
+    sr_out (tls_flush fuel chunks (mk_sock [] [])) = SOk
+    /\ digest (sk_wire (sr_sock (tls_flush fuel chunks (mk_sock [] [])))) = digest_chunks chunks.
+Proof. exact tls_flush_fast_path. Qed.
+Print Assumptions tls_large_payload_fast_path.
 
 (* ---- asyncio side (IO/AsyncAdapter.v: the byte contents carried along the flow-control transition system of
    Conc/FlowControl.v).  For every history of send_all / send_all_from_iterable calls, kernel takes, transport death,
